@@ -32,12 +32,16 @@ CHECKS = {
         design="4/C09",
     ),
     "C20": dict(
-        specs=["CodecR.tla", "Codec.tla", "CodecIO.tla"],
+        specs=["CodecR.tla", "Codec.tla", "CodecIO.tla", "Capture.tla", "LRU.tla"],
         text="The laws the property states (XOR length-preserving / self-inverse / identity keys, NetBIOS round trip at every "
         "offset, pack/unpack inverses, classifier shape) are model-checked on the reference operators for every input of the "
         "small model; TLC-computed tables (all data/key pairs over {0,1,255}, all bytes, all short URIs, boundary integers of "
         "every width) are replayed through utils.*; seeded random calls incl. generated stager URIs and the pcap staged-beacon "
-        "gate are judged by TLC.",
+        "gate are judged by TLC. Around the gate, Capture.tla models pcap.BeaconCapture's loop (LRU pairing of responses with "
+        "requests, staged-beacon discovery switching decoding on, metadata de-duplication, ignored POST responses, swallowed "
+        "decode errors) against a declarative expectation, with the action property that only a response to a KNOWN stager "
+        "request switches decoding on; every capture of its dumped graphs (from the empty capture and from a staged prefix) is "
+        "replayed on the real BeaconCapture with fake packet objects carrying real traffic; LRU.tla does the same for utils.LRUDict.",
         note="Trusted: TLC, CodecR, the harness' int<->limb conversion (TLC integers are 32-bit). checksum8 is taken as defined by "
         "Cobalt Strike/Metasploit (sum of non-slash characters mod 256, 0 below 4 characters).",
         technique="TLC-evaluated reference tables replayed into the code + recorded calls judged by TLC",
